@@ -26,6 +26,12 @@ type I0 interface{ M0() }
 
 type I1 interface{ M1() }
 
+// I2 has the methods of both: whoever implements I2 implements I0 and I1 (only T6 does)
+type I2 interface {
+	M0()
+	M1()
+}
+
 func (T5) M0() {}
 func (T6) M0() {}
 func (T6) M1() {}
@@ -47,6 +53,7 @@ const typedNilTag = 9999999
 const (
 	cI0    = 10
 	cI1    = 11
+	cI2    = 12
 	cError = 20
 	cTE    = 21
 	cUnus  = 22
@@ -67,6 +74,7 @@ var codeType = map[int]reflect.Type{
 	0: reflect.TypeOf(T0{}), 1: reflect.TypeOf(T1{}), 2: reflect.TypeOf(T2{}), 3: reflect.TypeOf(T3{}),
 	4: reflect.TypeOf(T4{}), 5: reflect.TypeOf(T5{}), 6: reflect.TypeOf(T6{}), 7: reflect.TypeOf(T7{}),
 	cI0: reflect.TypeOf((*I0)(nil)).Elem(), cI1: reflect.TypeOf((*I1)(nil)).Elem(),
+	cI2: reflect.TypeOf((*I2)(nil)).Elem(),
 	cError: tError, cTE: tTE, cUnus: tUnus, cDebug: tDebug,
 }
 
@@ -115,6 +123,8 @@ func dynCode(c int) int {
 		return 5
 	case cI1:
 		return 7
+	case cI2:
+		return 6
 	case cTE:
 		return cError
 	}
@@ -221,24 +231,24 @@ func readValue(declared reflect.Type, x reflect.Value) Val {
 // generic annotation tables (the API is generic over the static type)
 var looseFn = map[int]func(any) nject.Provider{
 	0: nject.Loose[T0], 1: nject.Loose[T1], 2: nject.Loose[T2], 3: nject.Loose[T3], 4: nject.Loose[T4],
-	5: nject.Loose[T5], 6: nject.Loose[T6], 7: nject.Loose[T7], cI0: nject.Loose[I0], cI1: nject.Loose[I1],
+	5: nject.Loose[T5], 6: nject.Loose[T6], 7: nject.Loose[T7], cI0: nject.Loose[I0], cI1: nject.Loose[I1], cI2: nject.Loose[I2],
 	cError: nject.Loose[error],
 }
 
 var mustConsumeFn = map[int]func(any) nject.Provider{
 	0: nject.MustConsume[T0], 1: nject.MustConsume[T1], 2: nject.MustConsume[T2], 3: nject.MustConsume[T3], 4: nject.MustConsume[T4],
-	5: nject.MustConsume[T5], 6: nject.MustConsume[T6], 7: nject.MustConsume[T7], cI0: nject.MustConsume[I0], cI1: nject.MustConsume[I1],
+	5: nject.MustConsume[T5], 6: nject.MustConsume[T6], 7: nject.MustConsume[T7], cI0: nject.MustConsume[I0], cI1: nject.MustConsume[I1], cI2: nject.MustConsume[I2],
 	cError: nject.MustConsume[error], cUnus: nject.MustConsume[nject.Unused],
 }
 
 var consOptFn = map[int]func(any) nject.Provider{
 	0: nject.ConsumptionOptional[T0], 1: nject.ConsumptionOptional[T1], 2: nject.ConsumptionOptional[T2], 3: nject.ConsumptionOptional[T3], 4: nject.ConsumptionOptional[T4],
-	5: nject.ConsumptionOptional[T5], 6: nject.ConsumptionOptional[T6], 7: nject.ConsumptionOptional[T7], cI0: nject.ConsumptionOptional[I0], cI1: nject.ConsumptionOptional[I1],
+	5: nject.ConsumptionOptional[T5], 6: nject.ConsumptionOptional[T6], 7: nject.ConsumptionOptional[T7], cI0: nject.ConsumptionOptional[I0], cI1: nject.ConsumptionOptional[I1], cI2: nject.ConsumptionOptional[I2],
 	cError: nject.ConsumptionOptional[error], cUnus: nject.ConsumptionOptional[nject.Unused],
 }
 
 var shadowOKFn = map[int]func(any) nject.Provider{
 	0: nject.AllowReturnShadowing[T0], 1: nject.AllowReturnShadowing[T1], 2: nject.AllowReturnShadowing[T2], 3: nject.AllowReturnShadowing[T3], 4: nject.AllowReturnShadowing[T4],
-	5: nject.AllowReturnShadowing[T5], 6: nject.AllowReturnShadowing[T6], 7: nject.AllowReturnShadowing[T7], cI0: nject.AllowReturnShadowing[I0], cI1: nject.AllowReturnShadowing[I1],
+	5: nject.AllowReturnShadowing[T5], 6: nject.AllowReturnShadowing[T6], 7: nject.AllowReturnShadowing[T7], cI0: nject.AllowReturnShadowing[I0], cI1: nject.AllowReturnShadowing[I1], cI2: nject.AllowReturnShadowing[I2],
 	cError: nject.AllowReturnShadowing[error],
 }
